@@ -243,7 +243,10 @@ def job(j, seed):
         once = True
         double_rounded, rounding_known = [], True
         while done < N:
-            rec = c.take('array')
+            try:
+                rec = c.take('array')
+            except (IndexError, ValueError):
+                break  # the pixel block ends before N pixels were found: reported by the 'all N pixels' obligation below
             sa = rec.value
             once = once and rec.meta == 'float32' and sa.dtype == 'float32'
             # exactly one float32 rounding per value: the conversion to the declared unit happens in the (float64) dtype of the
